@@ -48,6 +48,14 @@ def warm(tier):
             CallingMCMC(ploidy=2, haplotypes=inst.haps, frequencies=inst.farr, inbreeding=0.2, steps=3, chains=1, random_seed=1, step_type=stype).fit(inst.R, inst.C, initial=g)
 
 
+
+def setup_extra():
+    from .. import cliflow
+
+    for part in (("asm", 0), ("hand", 1)):
+        cliflow.call_flow(Result(), {}, 0, part)
+
+
 def plan(tier, seed):
     jobs = []
     maxH, maxP = (4, 4) if tier == "quick" else (5, 6)
